@@ -11,7 +11,7 @@ import random
 ID = "C37"
 TRACE = ("Trace_Grid", "Trace_Grid.cfg")
 CHUNK = 40
-PARALLEL = 4
+PARALLEL = 1     # the helpers are microsecond numpy calls: threads only add GIL contention (measured 16 s vs 48 s)
 PAD = 6  # quarter units
 RAISED = -99
 WS = (1, 2, 3)
@@ -44,6 +44,12 @@ def _edges_q(o, w):
 
 
 def gen_cases(ctx):
+    cases = list(_gen_cases(ctx))
+    random.Random(ctx.seed + 1).shuffle(cases)  # balances the TLC validation chunks (line records are the heavy ones)
+    return cases
+
+
+def _gen_cases(ctx):
     rng = random.Random(ctx.seed)
     n = 0
     # (1) line grids: every width sequence with <= 4 cells; long axis position, origin and unit vary
